@@ -50,13 +50,34 @@ def run(res, tier, build_ok):
     for length in range(1, 253):
         for rc in (0x70, 0x71, 0x72, 0x73, rng.randrange(128)):
             bufs.append(mk(rc, rng.randrange(16), rng.getrandbits(8), rng.getrandbits(8), length))
+    # all-zero buffers (response code 00h: "CHECK CONDITION, no sense supplied") and buffers ending in long zero runs
+    for length in (1, 2, 8, 14, 18, 32, 96, 252):
+        bufs.append(bytearray(length))
+    for length in (18, 32, 96):
+        for rc in (0x70, 0x72):
+            b = bytearray(length)
+            b[0] = rc
+            bufs.append(b)
+    # the error classes a user actually catches are bound to the device classes (SCSIDevice.CheckCondition,
+    # ISCSIDevice.CheckCondition); they must behave like the base class on every buffer
+    import sys
+    from lib import virtos
+    virtos.VirtualOS().install()
+    from pyscsi.pyscsi.scsi_device import SCSIDevice
+    from pyscsi.pyiscsi.iscsi_device import ISCSIDevice
+    classes = [SCSICheckCondition, SCSIDevice.CheckCondition, ISCSIDevice.CheckCondition]
+    zero_tail = [b for b in bufs if not any(b[1:])]
+    bufs = bufs + zero_tail + zero_tail           # so that each of them meets each of the three classes
     reqs = []
     # phase 1: construct every error object; phase 2: only then inspect/print them, so that an error
     # object is looked at after many others were created (no shared state between error objects)
     objs = []
-    for b in bufs:
+    nz = len(bufs) - 2 * len(zero_tail)
+    for i, b in enumerate(bufs):
+        cls = classes[i % 3] if i < nz else classes[(i - nz) // len(zero_tail) + 1]
+        res.count("error class " + ("base SCSICheckCondition" if cls is SCSICheckCondition else cls.__qualname__ if hasattr(cls, "__qualname__") else str(cls)))
         try:
-            objs.append(SCSICheckCondition(bytearray(b)))
+            objs.append(cls(bytearray(b)))
         except Exception as ex:
             objs.append(ex)
     for b, e in zip(bufs, objs):
